@@ -470,7 +470,7 @@ func checkC10(c *vsched.RunCtx) {
 	}
 	runStreamRaces(c)
 	runGMEDrivers(c, true)
-	c.Assume("happens-before race detection over instrumented accesses to fields of structs declared in grpcgcp and to maps; slice elements are not tracked; accesses inside gRPC/protobuf are out of scope",
+	c.Assume("happens-before race detection over instrumented accesses to fields of structs declared in grpcgcp to maps and to slice elements (index, append within capacity, range); accesses inside gRPC/protobuf are out of scope",
 		"drivers: grow-race, pick-done, refresh-race, rr-bind, rr-cancel, fallback-pick, resolve-pick, bind-unbind, stream scenarios, gme-update; multiendpoint drivers in the multiendpoint package")
 }
 
